@@ -45,7 +45,7 @@ def toml_value(v):
     raise TypeError(v)
 
 
-MD_STYLE = dict(key=lambda k: k, gap=" ")  # how metadata is written: keyword letter case, blanks between the fields of one item
+MD_STYLE = dict(key=lambda k: k, gap=" ", quote="")  # how metadata is written: keyword letter case, blanks between the fields of one item
 
 
 def md_lines(name, v, sep="="):
@@ -74,7 +74,8 @@ def _md_lines(name, v, sep="="):
             return [f"{name}:"]
         return [f"{name}: {items[0]}"] + [f"    {x}" for x in items[1:]]
     if isinstance(v, dict):
-        items = [(f"{k}{sep} {x}" if sep == ":" else f"{k} {sep} {x}") for k, x in v.items()]
+        q = MD_STYLE.get("quote", "") if sep == ":" else ""  # the user guide writes URLs of `name: url` tables in quotes
+        items = [(f"{k}{sep} {q}{x}{q}" if sep == ":" else f"{k} {sep} {x}") for k, x in v.items()]
         if not items:
             return [f"{name}:"]
         return [f"{name}: {items[0]}"] + [f"    {x}" for x in items[1:]]
@@ -367,12 +368,13 @@ def run_case(st: Stats, case):
         _, name, v, cwd, *style = case
         style = style[0] if style else "plain"
         # other ways of writing the same metadata: keywords are case-insensitive; fields of an item may be separated by several blanks
-        MD_STYLE.update(key={"plain": lambda k: k, "Key": str.capitalize, "KEY": str.upper}.get(style, lambda k: k), gap="   " if style == "gaps" else " ")
+        MD_STYLE.update(key={"plain": lambda k: k, "Key": str.capitalize, "KEY": str.upper}.get(style, lambda k: k), gap="   " if style == "gaps" else " ",
+                        quote={"dquoted": '"', "squoted": "'"}.get(style, ""))
         try:
             check_formats(st, {name: v}, f"single/{type_class(fields[name])}" + ("" if style == "plain" else "/md-" + style),
                           dict(space="single", option=name, cls=type_class(fields[name]), cwd=cwd, md_style=style), cwd)
         finally:
-            MD_STYLE.update(key=lambda k: k, gap=" ")
+            MD_STYLE.update(key=lambda k: k, gap=" ", quote="")
     elif kind == "pair":
         _, n1, v1, n2, v2 = case
         check_formats(st, {n1: v1, n2: v2}, "pair", dict(space="pair", option=f"{n1}+{n2}", cls=f"{type_class(fields[n1])}+{type_class(fields[n2])}", cwd="proj"))
@@ -451,6 +453,8 @@ SKIP = {"preprocess", "src_dir"}  # fixed in every case (no preprocessor availab
 
 
 def gen_cases(tier):
+    from ford.settings import OPTION_SEPARATORS as OPTION_SEP
+
     fields, _ = field_table()
     singles = []
     for name, tp in fields.items():
@@ -460,6 +464,9 @@ def gen_cases(tier):
         for v in values_for(name, cls):
             singles.append((name, v))
             yield ("single", name, v, "proj")
+            if isinstance(v, dict) and v and OPTION_SEP.get(name) == ":":
+                yield ("single", name, v, "proj", "dquoted")
+                yield ("single", name, v, "proj", "squoted")
             # multi-line values / lists under a capitalised keyword; aligned columns in extra_filetypes
             if (isinstance(v, (list, dict)) and len(v) > 1) or (isinstance(v, str) and "\n" in v) or isinstance(v, bool):
                 yield ("single", name, v, "proj", "Key")
